@@ -42,7 +42,8 @@ def xmaxOf (F : Fn α) (fc : α) : α :=
   else F.exp ((2 + 0.3 * (fc - 0.1) / 0.2) * F.log 10) / 100
 
 /-- the `while compi >= 0` loop, from the bottom compartment upwards (argument: the profile
-reversed).  Result in the same (reversed) order, before rounding. -/
+reversed).  `dFC = (dV / (Xmax ** 2)) * ((zMid - (z_gw - Xmax)) ** 2)`: both squares are `**` on
+scalars (C `pow(·, 2.0)`) here — unlike `check_groundwater_table`, where the divisor is a product.  Result in the same (reversed) order, before rounding. -/
 def fcAdjUp (F : Fn α) (zgw : α) : List (Comp α) → List α
   | [] => []
   | c :: above =>
@@ -52,8 +53,8 @@ def fcAdjUp (F : Fn α) (zgw : α) : List (Comp α) → List α
     else
       (if c.thS ≤ c.thFC then c.thFC
        else if zgw ≤ c.zMid then c.thS
-       else c.thFC + (c.thS - c.thFC) / (xmax * xmax) *
-              ((c.zMid - (zgw - xmax)) * (c.zMid - (zgw - xmax)))) :: fcAdjUp F zgw above
+       else c.thFC + (c.thS - c.thFC) / (F.pow xmax 2) *
+              (F.pow (c.zMid - (zgw - xmax)) 2)) :: fcAdjUp F zgw above
 
 /-- `InitCond.th_fc_Adj` (before any aliasing) : unrounded `th_fc` without water table,
 `round(·,3)` of the adjustment with one. -/
